@@ -71,7 +71,15 @@ def judge(c, calls, scen_by_id, name="outcome-contract"):
                 c2.add_run(fam, [{"sc": sid}], {sid: evs}, {})
                 bad = [x for _, _, x in c2.rec if x["outcome"] not in ("value", "error") or x["alloc"] > 33554432 + 64 * x["len"] or x["ms"] > 3000 + 20 * (x["len"] // 1024) or x.get("read", 0) > 65536 + 8 * x["len"] or x.get("retained", 0) > 2097152]
                 return bool(bad)
-            c.reproduce(fam, sid, still_bad, env=env_of())
+            try:
+                c.reproduce(fam, sid, still_bad, env=env_of())
+            except vf.FrameworkError:
+                if rec["outcome"] in ("value", "error") and cls == "time":
+                    # a wall-clock excess that does not show again on a fresh worker was the machine (load), not the library: neither a verdict nor a framework problem
+                    c.cov["time_excess_not_reproduced"] = c.cov.get("time_excess_not_reproduced", 0) + 1
+                    seen[key] -= 1
+                    continue
+                raise
         c.report(key, "%s on %s" % (what, rec["entry"]), dict({"family": fam, "scenario": scen_by_id.get((fam, sid)), "call": rec}, **(c.rp(fam, scen_by_id[(fam, sid)], judge="outcome") if scen_by_id.get((fam, sid)) else {})))
     return len(calls.rec), len(rejected)
 
